@@ -352,8 +352,9 @@ def w_cross(item, rep):
         plan.append([(y, [()]) for y in range(n)])
     ex.explore(base_state(classes), [True] * n, [], plan, False)
     if x1 == 0 and chunk[0] == 0:
-        rep.sample({"part": "cross", "objects": list(classes), "calls per class": [len(o) for o in ex.ops],
-                    "calls of the first class": [show(op) for op in ex.ops[0]]})
+        rep.notes["S|%d|%s" % (len(classes), "+".join(classes))] = {
+            "part": "cross", "objects": list(classes), "calls per class": [len(o) for o in ex.ops],
+            "calls of the first class": [show(op) for op in ex.ops[0]]}
 
 
 def w_deep(item, rep):
